@@ -336,6 +336,44 @@ def check_removal(found, truth, before, after, where, case, *, unsafe=False, rem
     return removed, sorted(set(dirs0) - set(dirs1))
 
 
+def adopt_volatile_scenario(mode: int):
+    """A step writes a volatile output into a directory; the user takes the file over, drops the
+    step and declares the directory a static tree.  From then on the file is a static (user-provided)
+    file: neither the cleanup of the next complete build (mode 0) nor `stepup clean --commit` after a
+    `--no-clean` build (mode 1) may remove it."""
+    from simdirector import A, FifoSchedule, Project, SimDirector
+
+    keep = A.step("keep", inp=["src/a.txt"], out=["out/keep.txt"])
+    v1 = [A.static("src/a.txt"), A.step("N", inp=["src/a.txt"], out=["out/n.txt"], vol=["data/notes.txt"]), keep]
+    v2 = [A.static("src/a.txt"), A.static_tree("data/"), keep]
+    project = Project(scripts={"./plan.py": v1}, files={"src/a.txt": "A1\n"})
+    found: list[Finding] = []
+    case = {"scenario": "adopt-volatile", "mode": ["build-with-cleaning", "no-clean-then-stepup-clean"][mode],
+            "reproduce": f"harness/props/c06.py: adopt_volatile_scenario({mode})"}
+    with SimDirector(project, seed=1) as sim:
+        r1 = sim.build(njob=1, schedule=FifoSchedule())
+        if r1.status != "done" or r1.returncode.value != 0:
+            return found, {"first-build-failed": 1}
+        user = "my own notes\n" if mode == 0 else None  # mode 1 keeps what the step wrote
+        if user is not None:
+            sim.apply([("write", "data/notes.txt", user)])
+        sim.set_script("./plan.py", v2)
+        r2 = sim.build(njob=1, schedule=FifoSchedule(), **({} if mode == 0 else {"clean": False}))
+        case["builds"] = [[1, str(r1.returncode), r1.tags("REMOVE")], [2, r2.status, str(r2.returncode), r2.tags("REMOVE")]]
+        if r2.status != "done":
+            return found, {"second-build-" + r2.status: 1}
+        if mode == 1:
+            error, text = ck.run_clean(sim, ["."], all_=False, unsafe=False, commit=True)
+            case["clean_output"] = text[-400:]
+        files_now = ck.snapshot(sim.root)[0]
+        if "data/notes.txt" not in files_now:
+            finding(found, "static-file-removed:" + ("finalize" if mode == 0 else "stepup-clean"),
+                    "data/notes.txt lies in the directory that the plan declares a static tree and was removed by "
+                    + ("the cleanup of the build that adopted the directory" if mode == 0 else "stepup clean --commit"),
+                    case)
+    return found, {"adopt-volatile-scenarios": 1}
+
+
 def pick_build_kwargs(r, model):
     kw = {"njob": r.randint(1, 3)}
     k = r.random()
@@ -605,6 +643,12 @@ async def correspond(ctx):
 
 async def search(ctx):
     await run_histories(ctx, "oracle-hist", ctx.budget(260, 4000), with_model=False)
+    for mode in (0, 1):
+        found, stats = await asyncio.to_thread(adopt_volatile_scenario, mode)
+        for f in found:
+            ctx.finding(f)
+        for k, v in stats.items():
+            ctx.stats.count("scenario:" + k, v)
 
 
 async def replay(ctx, detail):
